@@ -24,7 +24,8 @@ __ne__ and the ufunc early return agree on polarity; (R4) all 27 merging array-f
 through the unit-consistency validator before NumPy sees data, and the validator raises whenever two distinct units were
 seen; (R5) every return of the conversion-factor routine is dominated by the dimension test, every conversion entry point
 passes through it, item assignment converts or proves equal units; (R6) Unit +,- and in-place operators only raise; (R7)
-nothing is written to an operand on a path that ends in a refusal."""
+nothing is written to an operand on a path that ends in a refusal.
+(R8) a list operand is coerced to one unit only when every element's unit equals the first element's, an element without units counting as the null unit (shared with C16-R2); the block that checks dimensions is entered whenever the two unit objects differ (only `is not` / `!=` conjuncts on the units themselves)."""
 LEVEL_NOTE = """Undecided: that NumPy routes every operator / in-place / out= spelling through __array_ufunc__ (NumPy's
 contract, trusted); NumPy functions unyt does not wrap; numerical content of operands after the call. Bare Python numbers
 are accepted by the item-writing handlers (insert, put, fill_diagonal, ...) by unyt's documented design and are not
